@@ -53,6 +53,10 @@ def load_templates():
         # the console echo of the report is irrelevant to every claimed property and costs time
         txt += '\nPrint Output to Console, 0\n'
         t.append(dict(name=n[:-4], kind='geo', text=txt, cost=cost))
+    try:
+        t.append(dict(name='dh_example12', kind='geo', cost='dh', text=_ex('example12_DH.txt') + '\nPrint Output to Console, 0\n'))
+    except OSError:
+        pass
     t.append(dict(name='hip_a', kind='hip', text=WL.HIP_BASE, cost='fast'))
     t.append(dict(name='hip_b', kind='hip', text=WL.HIP_BASE_2, cost='fast'))
     for x in t:
@@ -203,6 +207,20 @@ def add_default_tweaks(items):
         GEO_TWEAKS.append(('# explicit defaults, one moved', vals2))
 
 
+DH_TWEAKS = []
+
+
+def add_dh_tweaks(temperature_file):
+    if DH_TWEAKS:
+        return
+    def opt2(div, units):
+        return (f'2\nTemperature File Name, {temperature_file}\nTemperature Data Column Number, 2\nNumber of Housing Units, {units}\n'
+                f'US Census Division, {div}\nConstant Anchor Demand, 2')
+    DH_TWEAKS.append(('District Heating Demand Option', [opt2(7, 5000), opt2(3, 5000), opt2(9, 5000), opt2(1, 5000), opt2(5, 4000), opt2(7, 4000)]))
+    DH_TWEAKS.append(('District Heating Demand Option', [opt2(7, 5000), opt2(3, 5000), opt2(5, 5000)]))
+    DH_TWEAKS.append(('Peaking Boiler Efficiency', ['0.8', '0.9']))
+
+
 def add_profile_tweaks(profile_dir):
     """requests that name a user-provided temperature profile by absolute path (reservoir model 5)"""
     if any(t[0] == 'Reservoir Model' and 'Reservoir Output File Name' in t[1][0] for t in GEO_TWEAKS):
@@ -285,6 +303,10 @@ GEO_TWEAKS = [
     ('Units:Net Electricity Production', ['kW']),
     ('Units:Produced Temperature', ['degF']),
     ('Units:Pumping Power', ['kW']),
+    # ... for quantities that are columns of the revenue & cash-flow table
+    ('Units:Total O&M Cost', ['KUSD/yr']),
+    ('Units:Annual Revenue from Electricity Production', ['KUSD/yr']),
+    ('Units:Electricity Sale Price Model', ['USD/kWh']),
     # very large and very small projects: values that overflow the column widths of the report, negative economics
     ('Number of Production Wells', ['200\nNumber of Injection Wells, 200', '200\nNumber of Injection Wells, 200\nReservoir Depth, 5',
                                     '1\nNumber of Injection Wells, 1\nProduction Flow Rate per Well, 10']),
